@@ -264,7 +264,7 @@ for (n, cost, mem, q, fam, hist) in [
 NE = "nest::"
 for (n, prop, cost, q) in [("nest_join_tt_r3", "C04", 40, 1), ("nest_join_tt_r4", "C04", 80, 0), ("nest_join_ta_r3", "C04", 180, 0),
                            ("nest_join_a1t_r3", "C04", 30, 1), ("nest_tryjoin_tt_r3", "C05", 60, 1),
-                           ("nest_merge_tt_k1_r4", "C08", 80, 1), ("nest_merge_ta_k1_r4", "C08", 80, 0),
+                           ("nest_merge_tt_k1_r4", "C08", 80, 1),
                            ("nest_merge_a1t_k2_r5", "C08", 60, 1)]:
     add(NE + n, "nostd", prop, quick=([prop, "C01", "C03", "C20"] if q else []), thorough=[prop, "C01", "C03", "C20", "C02"], cost=cost,
         nesting="2 levels", leaves=2 if "a1t" in n else 3)
